@@ -715,9 +715,12 @@ impl Gen<'_> {
         }
         if let Some(i) = i {
             if self.sim.ups[i].alive && self.sim.ups[i].owner == w {
-                // the real backend consumes the upload id whatever happens next
-                self.sim.ups[i].alive = false;
                 let exact = pl == format!("+{}", run.iter().map(|(n, _)| n.to_string()).collect::<Vec<_>>().join(","));
+                // since 0932917 the real backend consumes the upload id only when the complete succeeds (an empty part list
+                // "succeeds" too); after a failed complete the upload stays and later operations keep addressing it
+                if good || (exact && exact_ok) || pl == "+" {
+                    self.sim.ups[i].alive = false;
+                }
                 if (good || (exact && exact_ok)) && !pl.ends_with('+') {
                     self.ensure_bucket_wild(&b);
                     if let Some(objs) = self.sim.buckets.get_mut(&b) {
